@@ -1,7 +1,7 @@
 SPECIFICATION Spec
 CONSTANTS
     MaxRev = 3
-    MaxOps = 4
+    MaxOps = 5
     InstallRevs <- Rev1
     AttrOpts <- AttrPlain
     RetainOpts <- RetNone
@@ -12,7 +12,7 @@ CONSTANTS
     OpFaults = FALSE
 INVARIANTS
     TypeOK
-    C10_Restored
-    C10_BlockRestored
+    C13_Revert
+    C13_RevertPre
 CONSTRAINT StateConstraint
 CHECK_DEADLOCK FALSE
